@@ -157,7 +157,9 @@ func propC01(j *Job) {
 		cases = append(cases, famW4(modes, 1)...)
 		cases = append(cases, famW5(modes, 2)...)
 	}
-	runCases(j, cases, func(spec *xferSpec) func(m *Sim, x *Exec, r *xferResult) { return deliveryFinal(spec, false, monOpts{}) })
+	runCases(j, cases, func(spec *xferSpec) func(m *Sim, x *Exec, r *xferResult) {
+		return deliveryFinal(spec, false, monOpts{})
+	})
 	_ = fmt.Sprint
 }
 
